@@ -100,6 +100,8 @@ func TestC16(t *testing.T) {
 
 	r.SetRule("scripts", "generated TO2 runs (real device role, real owner responders over the HTTP transport/handler, in-memory state): 0..4 owner modules (each: active handshake, 0..4 rounds of 0..6 messages with sizes dense around the device MTU, IsMoreServiceInfo blocks, done with or after the last round), device modules that react to each owner message and in Yield with sequences of yields and messages (sizes dense around multiples of the owner MTU, up to 70000 bytes, split over 1..4 writes), modules missing on the device, 0..200 extra device modules with names of 1..40 bytes, both MTUs from 256 to 65535 (or owner default), optional devmod fields, 3 cipher/key configurations, optional schedule perturbation (Gosched/sleep in every module callback). Oracle: TO2 succeeds; owner stored exactly the device's devmod and module set; per module the merged owner→device and device→owner streams are equal on both sides; activation before Receive; missing modules answer active=false and get nothing; owner modules strictly sequential; exactly one Done, sent right after the exchange in which the last module reported done. Non-trivial: ≥ 2 modules, or a device message larger than the MTU, or a yield, or extra modules.")
 	ev.Rapid(r, "scripts", ev.N{Quick: 2500, Thorough: 150000}, genScript, eval)
+	r.SetRule("late-replies", "2..4 owner modules in sequence, some of which report done together with their last message while the device module still reacts to it (the reaction arrives when the next owner module is current), reaction sizes 0..1500, owner MTU default/300/1300. What the library does with the late reaction itself is not judged; oracle: TO2 succeeds, every device module with a counterpart is activated exactly once before it receives anything, and it receives exactly the messages its own owner module sent, in order (no owner output is delivered to another module or lost). Non-trivial: at least one late reaction.")
+	ev.Rapid(r, "late-replies", ev.N{Quick: 400, Thorough: 20000}, genLate, evalLate)
 	ev.CheckWitness(r, "scripts", eval)
 	ev.CheckWitness(r, "streams", eval)
 }
